@@ -291,6 +291,22 @@ class KeyHashType(StringType, prim='key_hash'):
 
 
 class SignatureType(StringType, prim='signature'):
+    # signatures are compared by their bytes, whatever base58 prefix they are spelled with
+    @property
+    def raw(self) -> bytes:
+        return base58_decode(self.value.encode())
+
+    def __lt__(self, other: 'SignatureType') -> bool:  # type: ignore
+        return self.raw < other.raw
+
+    def __eq__(self, other) -> bool:  # type: ignore
+        if not isinstance(other, SignatureType):
+            return False
+        return self.raw == other.raw
+
+    def __hash__(self):
+        return hash(self.raw)
+
     @classmethod
     def dummy(cls, context: AbstractContext) -> 'SignatureType':
         return cls.from_value(context.get_dummy_signature())
